@@ -410,9 +410,12 @@ def build_apply_file(case):
     names = ['' if i == 0 else 's%d' % i for i in range(max(len(symvals), len(decoy['syms']) if decoy else 0))]
     strblob, offs = W.build_strtab(names)
 
+    # sh_entsize of a symbol table may exceed the size of Elf_Sym: entries are then padded and the stride is the header's
+    sympad = case.get('sympad', 0)
+
     def symtab(vals):
         return b''.join(W.enc_sym(cls, le, offs[nm], v, 0, 0 if i == 0 else case['syminfo'][i % len(case['syminfo'])], 0,
-                                  0 if i == 0 else case['symshndx'][i % len(case['symshndx'])])
+                                  0 if i == 0 else case['symshndx'][i % len(case['symshndx'])]) + bytes((0x5a + k) & 0xff for k in range(sympad))
                         for i, (nm, v) in enumerate(zip(names, vals)))
     symdata = symtab(symvals)
     real = '.dynsym' if decoy and decoy['real'] == 'dynsym' else '.symtab'
@@ -434,9 +437,9 @@ def build_apply_file(case):
                        'data': enc_entries(cls, le, x['rela'], mips64, ents)}, real, x['name']))
     if decoy:
         other = '.symtab' if real == '.dynsym' else '.dynsym'
-        named.append((other, {'sh_type': 2 if other == '.symtab' else 11, 'sh_entsize': W.SYM_SIZE[cls], 'sh_info': 1, 'sh_addralign': cls // 8,
+        named.append((other, {'sh_type': 2 if other == '.symtab' else 11, 'sh_entsize': W.SYM_SIZE[cls] + sympad, 'sh_info': 1, 'sh_addralign': cls // 8,
                               'data': symtab(decoy['syms'])}, '.strtab', None))
-    named.append((real, {'sh_type': 2 if real == '.symtab' else 11, 'sh_entsize': W.SYM_SIZE[cls], 'sh_info': 1, 'sh_addralign': cls // 8, 'data': symdata}, '.strtab', None))
+    named.append((real, {'sh_type': 2 if real == '.symtab' else 11, 'sh_entsize': W.SYM_SIZE[cls] + sympad, 'sh_info': 1, 'sh_addralign': cls // 8, 'data': symdata}, '.strtab', None))
     named.append(('.strtab', {'sh_type': 3, 'data': strblob}, None, None))
     named.append(('.shstrtab', {'sh_type': 3, 'data': b''}, None, None))
     perm = case.get('secperm')
@@ -973,6 +976,8 @@ def gen_apply(ch, tier, mk=None, le=None, neg='auto'):
         case['extra'] = {'name': nm, 'data': ch.bytes(4, 32), 'rela': junk_rela, 'relocs': junk}
     if ch.bool(0.3):
         case['decoy'] = {'real': ch.choice(['symtab', 'dynsym']), 'syms': [0] + [uval(ch, cls) for _ in range(ch.int(0, 7))]}
+    if ch.bool(0.15):
+        case['sympad'] = ch.choice([8, 16, 4, 24])
     nsec = 2 * len(targets) + 6
     if ch.bool(0.5):
         case['secperm'] = ch.perm(list(range(nsec)))
@@ -1118,6 +1123,8 @@ def sweep_apply():
                         extra['gaps'] = {'1': 1, '2': 3}
                     if nfile % 5 == 0:
                         extra['decoy'] = {'real': 'dynsym' if nfile % 10 == 0 else 'symtab', 'syms': [0, 0x11, 0x22222222, 0x33]}
+                    if nfile % 7 == 0:
+                        extra['sympad'] = 8 if nfile % 2 else 16
                     cases.append(_apply_case(mk, le, data, relocs, [0] + svals, **extra))
         # error paths, one offending relocation per file
         w0 = min(w for w, _ in spec['types'].values() if w)
